@@ -13,6 +13,12 @@ import (
 
 // isFreshLocal: v denotes a slice/map/array allocated by the current invocation (never loaded from the heap or received).
 func isFreshLocal(v ssa.Value, seen map[ssa.Value]bool) bool {
+	return isFreshLocalIn(v, seen, nil)
+}
+
+// isFreshLocalIn: the same, counting only allocations made inside the given blocks (nil: anywhere in the function).
+// With the blocks of a loop this is "allocated by some iteration of the loop", as opposed to "before the loop".
+func isFreshLocalIn(v ssa.Value, seen map[ssa.Value]bool, in map[*ssa.BasicBlock]bool) bool {
 	if seen[v] {
 		return true // cycles through phis: decided by the other operands
 	}
@@ -20,36 +26,97 @@ func isFreshLocal(v ssa.Value, seen map[ssa.Value]bool) bool {
 	switch x := v.(type) {
 	case *ssa.Const:
 		return x.Value == nil
-	case *ssa.MakeSlice, *ssa.MakeMap:
-		return true
-	case *ssa.Alloc:
-		return true
+	case *ssa.MakeSlice, *ssa.MakeMap, *ssa.Alloc:
+		return in == nil || in[x.(ssa.Instruction).Block()]
 	case *ssa.Slice:
-		return isFreshLocal(x.X, seen)
+		return isFreshLocalIn(x.X, seen, in)
 	case *ssa.Phi:
 		for _, e := range x.Edges {
-			if !isFreshLocal(e, seen) {
+			if !isFreshLocalIn(e, seen, in) {
 				return false
 			}
 		}
 		return true
 	case *ssa.Call:
 		if b, ok := x.Common().Value.(*ssa.Builtin); ok && b.Name() == "append" {
-			return isFreshLocal(x.Common().Args[0], seen)
+			return isFreshLocalIn(x.Common().Args[0], seen, in)
 		}
 		return false
 	case *ssa.ChangeType:
-		return isFreshLocal(x.X, seen)
+		return isFreshLocalIn(x.X, seen, in)
 	}
 	return false
 }
 
 // dirtyDirect: components that fn itself writes through a value that is not fresh-local.
 func (e *Engine) dirtyDirect(fn *ssa.Function) map[string]bool {
+	return e.directWrites(fn.Blocks, func(v ssa.Value) bool { return isFreshLocal(v, map[ssa.Value]bool{}) })
+}
+
+// loopSemiFresh: components that the blocks of the loop write through a value that was not allocated inside the loop.
+// Such a write may hit an array or map that this invocation allocated before the loop, so the loop's frame for these
+// components may only speak about what existed when the function was entered (not about what existed at loop entry).
+func (e *Engine) loopSemiFresh(li *loopInfo) map[string]bool {
+	var bs []*ssa.BasicBlock
+	for b := range li.blocks {
+		bs = append(bs, b)
+	}
+	return e.directWrites(bs, func(v ssa.Value) bool { return isFreshLocalIn(v, map[ssa.Value]bool{}, li.blocks) })
+}
+
+// loopLateCtor: constructor-only field components that the loop stores into through an allocation made outside the loop.
+func (e *Engine) loopLateCtor(li *loopInfo) map[string]bool {
 	so := e.sorts
 	d := map[string]bool{}
-	fresh := func(v ssa.Value) bool { return isFreshLocal(v, map[ssa.Value]bool{}) }
-	for _, b := range fn.Blocks {
+	for b := range li.blocks {
+		for _, in := range b.Instrs {
+			st, ok := in.(*ssa.Store)
+			if !ok {
+				continue
+			}
+			root := st.Addr
+			var first *ssa.FieldAddr
+			for {
+				fa, ok := root.(*ssa.FieldAddr)
+				if !ok {
+					break
+				}
+				first = fa
+				root = fa.X
+			}
+			al, isAlloc := root.(*ssa.Alloc)
+			if !isAlloc || li.blocks[al.Block()] {
+				continue
+			}
+			pt, ok := al.Type().Underlying().(*types.Pointer)
+			if !ok {
+				continue
+			}
+			n, ok := pt.Elem().(*types.Named)
+			if !ok || !so.isRepoType(n) {
+				continue
+			}
+			stt, ok := n.Underlying().(*types.Struct)
+			if !ok {
+				continue
+			}
+			if first != nil {
+				d[fieldComp(so, n, stt, first.Field)] = true
+			} else {
+				for i := 0; i < stt.NumFields(); i++ {
+					d[fieldComp(so, n, stt, i)] = true
+				}
+			}
+		}
+	}
+	return d
+}
+
+// directWrites: components that the given blocks write through a value that is not fresh in the given sense.
+func (e *Engine) directWrites(blocks []*ssa.BasicBlock, fresh func(ssa.Value) bool) map[string]bool {
+	so := e.sorts
+	d := map[string]bool{}
+	for _, b := range blocks {
 		for _, in := range b.Instrs {
 			switch x := in.(type) {
 			case *ssa.Store:
